@@ -223,7 +223,9 @@ impl ArrayToBytesCodecTraits for PackBitsCodec {
             let bit_enc0 = component_idx * component_size_bits_extracted;
             for bit in 0..component_size_bits_extracted {
                 let (byte_enc, bit_enc) = (bit_enc0 + bit).div_rem(&8);
-                let (byte_dec, bit_dec) = div_rem_8bit(bit_dec0 + bit, component_size_bits);
+                // The encoded bits are the bits `first_bit..=last_bit` of the component
+                let (byte_dec, bit_dec) =
+                    div_rem_8bit(bit_dec0 + first_bit + bit, component_size_bits);
                 packed_elements[usize::try_from(byte_enc).unwrap()] |=
                     ((bytes[usize::try_from(byte_dec).unwrap()] >> (bit_dec % 8)) & 0b1) << bit_enc;
             }
@@ -313,21 +315,20 @@ impl ArrayToBytesCodecTraits for PackBitsCodec {
             let bit_enc0 = component_idx * component_size_bits_extracted;
             for bit in 0..component_size_bits_extracted {
                 let (byte_enc, bit_enc) = (bit_enc0 + bit).div_rem(&8);
-                let (byte_dec, bit_dec) = div_rem_8bit(bit_dec0 + bit, component_size_bits);
+                // The encoded bits are the bits `first_bit..=last_bit` of the component
+                let (byte_dec, bit_dec) =
+                    div_rem_8bit(bit_dec0 + first_bit + bit, component_size_bits);
                 bytes_dec[usize::try_from(byte_dec).unwrap()] |=
                     ((packed_elements[usize::try_from(byte_enc).unwrap()] >> bit_enc) & 0b1)
                         << bit_dec;
             }
             if sign_extension {
                 let signed: bool = {
-                    let (byte_dec, bit_dec) = div_rem_8bit(
-                        bit_dec0 + component_size_bits_extracted.saturating_sub(1),
-                        component_size_bits,
-                    );
+                    let (byte_dec, bit_dec) = div_rem_8bit(bit_dec0 + last_bit, component_size_bits);
                     bytes_dec[usize::try_from(byte_dec).unwrap()] >> bit_dec & 0x1 == 1
                 };
                 if signed {
-                    for bit in component_size_bits_extracted..component_size_bits {
+                    for bit in (last_bit + 1)..component_size_bits {
                         let (byte_dec, bit_dec) = div_rem_8bit(bit_dec0 + bit, component_size_bits);
                         bytes_dec[usize::try_from(byte_dec).unwrap()] |= 1 << bit_dec;
                     }
